@@ -20,6 +20,62 @@ CHECKS = {
              "against the same specification; long random histories are validated the same way.",
         note=TRUST + "Exhaustive only inside the stated menus/bounds; W=64 only; lengths < 2^31.",
         design_ref="5/C06"),
+    "C03": dict(
+        technique="TLA+ specs EliasFano.tla (abstract builder/sequence machine) and EFDesign.tla (transcription of the "
+                  "low/high split, select-based get, iterator window): exhaustive TLC + TLC-exported builder histories "
+                  "replayed on the real builders/back-ends + TLC trace validation (values as base-2^15 limbs over all of usize)",
+        text="TLC checks on every monotone sequence with n<=4(5), u<=9(24), every admissible l, that the encoded "
+             "low/high arrays decode to the sequence, that get/iter/iter_from (incl. k=n and k=n+1) read inside the "
+             "arrays and return the sequence with exact hints, and on the abstract machine that rejected pushes leave "
+             "the builder unchanged; every builder history (accepted and rejected pushes, values {0,1,2,u-1,u,u+1}, "
+             "u up to 2^64-1) is exported by TLC and executed on the real sequential/concurrent builders and From, "
+             "over 19 selection back-ends, and each recorded call is judged by TLC; recipes (empty with u>0, n=1, "
+             "last=u, u near 2^32/2^63/2^64, l=0 duplicate runs across words, empty-bucket runs, gaps straddling 2^l) "
+             "and random sequences up to 9000 (70000) values are validated the same way.",
+        note=TRUST + "n < 2^31; design model bounded as stated; what a rejected extend consumed is not specified "
+             "(builder treated as abandoned).",
+        design_ref="5/C03 C04"),
+    "C04": dict(
+        technique="TLA+ spec EliasFano.tla (order-theoretic index_of/succ/pred with 'any index holding the value') + "
+                  "EFDesign.tla (bucket location by select_zero with explicit existence requirement, bounded scans): "
+                  "exhaustive TLC + TLC-exported query scripts + TLC trace validation; FairChunks.tla composes successor "
+                  "queries into a checked iterator",
+        text="TLC checks the transcription of index_of/succ/pred (both strictness flags) against the order-theoretic "
+             "definitions for every small sequence and every q<=u+3 incl. that select_zero is only asked for zeros "
+             "that exist; TLC exports every sequence of n<=3(4) values in a 5-value window placed at 0, 2^32-2 and "
+             "2^64-5 with every query in and around the window plus 0 and 2^64-1, replayed on 10 dictionary back-ends "
+             "(directly and through the &T forwarding impls); recipes and random sequences add empty-bucket runs, "
+             "duplicates, q>u, q=usize::MAX, singleton and empty dictionaries; all judged by TLC. FairChunks (an "
+             "iterator driven by successor queries on an Elias-Fano dictionary) is model-checked and trace-validated "
+             "as an additional client of the same contract.",
+        note=TRUST + "n < 2^31; bounded design model.",
+        design_ref="5/C03 C04"),
+    "C09": dict(
+        technique="TLA+ specs RearCoded.tla (abstract list of byte strings) and RCLDesign.tla (transcription of block "
+                  "coding, variable-byte rear lengths, pointers, sortedness flag, decoding, binary search + in-block scan "
+                  "with bounds-checked reads): exhaustive TLC + TLC-exported lists replayed + TLC trace validation",
+        text="TLC explores every list of <=4(5) strings over a 2(3)-letter alphabet x k in {1,2,3,5} x every index, "
+             "start position (up to 4 past the end) and probe string, checking that the design's get/iter/iter_from/"
+             "index_of equal the abstract list, hints are exact, the sorted flag is right and no array is read out of "
+             "bounds; the integer code is checked bijective at all byte-count boundaries; every such list is exported "
+             "and its full query battery executed on the real RearCodedList and judged by TLC; recipes (k up to 1000, "
+             "empty list/strings, duplicates, UTF-8 edges, rear lengths around 128/16512/2113664, shuffled input, absent "
+             "probes between stored strings, prefixes/extensions of block heads) and random lists likewise.",
+        note=TRUST + "Strings are valid UTF-8 (API takes &str); rear lengths needing 5+ code bytes are not executed.",
+        design_ref="5/C09"),
+    "C20": dict(
+        technique="TLA+ spec Lender.tla (Lines(input) in closed form and as a scanning reference, Take, Next/Rewind "
+                  "machine): exhaustive TLC over all consume/rewind histories + TLC-exported histories replayed on every "
+                  "lender kind + TLC trace validation",
+        text="TLC checks that the closed-form line splitting equals the byte-scanning reference on every string over "
+             "{a,LF,CR} of <=7(9) bytes and that every pass of every history (next, nexts, drain, rewind, depth 5(6)) "
+             "is a prefix of the items; all histories of depth 4(6) over 8 menu inputs x 9 lender kinds x Take variants "
+             "are exported and executed on LineLender (cursor/BufRead/file/path), ZstdLineLender, GzipLineLender, "
+             "FromIntoIterator and Take of them (compressed inputs flushed every 2 bytes, 3-byte BufReader), each call "
+             "judged by TLC; random and large inputs (multi-block zstd, long lines, CRLF mixes) likewise.",
+        note=TRUST + "One genuine defect is recorded, not repaired (rewind of lender::Take keeps the remaining count; "
+             "needs an API change): known_findings.json F-take-rewind-remaining. I/O errors are not injected here (C17).",
+        design_ref="5/C20"),
     "C13": dict(
         technique="TLA+ spec Atomic.tla (one action per atomic instruction): TLC explores every interleaving incl. CAS "
                   "retries of 2-4 writers (invariants NoInterference, SwapLinearizable, EqualsSequential; Termination "
